@@ -47,6 +47,10 @@ ASSUMPTIONS = [
 ]
 
 
+# measured over ~2000 two-tone cases: 1-MAC <= 6e-6 (periodogram), <= 0.09 (correlogram, boxcar leakage of the other tone)
+AMP_TOL = {"per": 1e-3, "cor": 0.3}
+
+
 def _fdd():
     from pyoma2.functions import fdd
 
@@ -86,6 +90,9 @@ def _gen_tables(ctx, nf=None):
         kind = "irregular"
     s2 = g.uniform(0.1, 1.0, nf)
     s1 = s2 * g.uniform(1.0, 20.0, nf)
+    if rng.random() < 0.6:  # the pick is a ratio: exercise absolute levels far from 1 (stored values are square roots)
+        lvl = 10.0 ** rng.uniform(-11, 8)
+        s1, s2 = s1 * lvl, s2 * lvl
     Sval = g.uniform(0.0, 1.0, (nch, nch, nf))
     Sval[0, 0, :] = s1
     Sval[1, 1, :] = s2
@@ -241,9 +248,13 @@ def _planted_sequence(ctx, nr, nc, nf, k0, strength):
     g = ctx.nprng()
     a = g.standard_normal(nr) + 1j * g.standard_normal(nr)
     Sy = np.zeros((nr, nc, nf), complex)
+    # "half spectrum": all x reference columns (nc < nr) or a square but non-Hermitian sequence (positive-lag
+    # correlogram estimate): conj(X) Y^T with Y != X
+    nonherm = ctx.rng.random() < 0.4
     for f in range(nf):
         X = g.standard_normal((nr, nr + 2)) + 1j * g.standard_normal((nr, nr + 2))
-        Sy[:, :, f] = (X.conj() @ X[:nc, :].T) / (nr + 2)
+        Y = X + 0.7 * (g.standard_normal(X.shape) + 1j * g.standard_normal(X.shape)) if nonherm else X
+        Sy[:, :, f] = (X.conj() @ Y[:nc, :].T) / (nr + 2)
     enorm = float(np.linalg.norm(Sy[:, :, k0], 2))
     Sy[:, :, k0] += strength * np.outer(a.conj(), a[:nc])
     if ctx.rng.random() < 0.5:  # a neighbouring line with a larger first but an equally large second singular value
@@ -371,33 +382,49 @@ def oracle(ctx, scale):
         k0 = rng.randint(1, nf - 2)
         strength = 10.0 ** rng.uniform(2, 6)
         Sy, a, atol = _planted_sequence(ctx, nr, nc, nf, k0, strength)
+        # the property is about ratios and directions: any absolute level of the spectral matrix (units of the data)
+        level = 10.0 ** rng.uniform(-22, 14) if rng.random() < 0.75 else 1.0
+        Sy = Sy * level
         DF = rng.uniform(1.0, 6.0) * df
         sel = freq[k0] + rng.uniform(-0.45, 0.45) * min(DF, 3 * df)
-        inp = {"path": "SD_svalsvec+FDD_mpe", "nr": nr, "nc": nc, "nf": nf, "df": df, "k0": k0, "strength": strength, "sel": sel, "DF": DF,
+        inp = {"path": "SD_svalsvec+FDD_mpe", "nr": nr, "nc": nc, "nf": nf, "df": df, "k0": k0, "strength": strength, "sel": sel, "DF": DF, "level": level,
                "Sy_re": Sy.real.tolist(), "Sy_im": Sy.imag.tolist()}
+        Sy0 = Sy.copy()
         Sval, Svec = fdd.SD_svalsvec(Sy)
         _judge_faithful(ctx, "SD_svalsvec", Sy, Sval, Svec, inp)
+        keep = (Sval.copy(), Svec.copy(), freq.copy())
         Fn, Phi = fdd.FDD_mpe(Sval, Svec, freq, [sel], DF=DF)
+        if not (np.array_equal(Sy0, Sy) and np.array_equal(keep[0], Sval) and np.array_equal(keep[1], Svec) and np.array_equal(keep[2], freq)):
+            ctx.violation("caller-input-modified", "SD_svalsvec/FDD_mpe modified an array passed by the caller", inp)
         # planted line inside the band -> shape must be the planted amplitudes (rank-one part dominates by `strength`)
         lo, hi = _nearest(freq, sel - DF, df), _nearest(freq, sel + DF, df)
         inside = lo is not None and hi is not None and lo <= k0 < hi and atol is not None and Fn[0] == freq[k0]
         _judge_pick(ctx, "SD_svalsvec+FDD_mpe", Sy, freq, sel, DF, Fn[0], Phi[:, 0], inp,
                     amp=a if inside else None, amp_tol=atol if inside else None)
-        ctx.count("oracle_fn_hermitian" if nr == nc else "oracle_fn_half")
-    # (2) through the algorithm classes
+        ctx.count("oracle_fn_square" if nr == nc else "oracle_fn_half")
+        ctx.count("oracle_fn_level_below_1e-12" if level < 1e-12 else "oracle_fn_level_other")
+    # (2) through the algorithm classes: two narrow-band responses, selected frequencies in arbitrary order,
+    # data in arbitrary units (gain), the same object asked twice
     for it in range(ctx.n(24, 240) * scale):
         which = rng.choice(["FDD", "EFDD", "FSDD", "FDD_MS"])
         nch = rng.randint(4, 6) if which == "FDD_MS" else rng.randint(2, 6)
-        fs = rng.choice([50.0, 100.0, 256.0])
+        fs = rng.choice([50.0, 100.0, 256.0, 1200.0])
         nxseg = rng.choice([64, 128, 256])
         df = fs / nxseg
-        f0 = rng.uniform(0.08, 0.4) * fs
+        DF = rng.uniform(1.5, 4.0) * df
+        f0 = rng.uniform(0.08, 0.15) * fs
+        f1 = f0 + 2 * DF + 4 * df + rng.uniform(0, 0.05) * fs
+        sels = [f0 + rng.uniform(-0.4, 0.4) * df, f1 + rng.uniform(-0.4, 0.4) * df]
+        if rng.random() < 0.5:
+            sels.reverse()
         nref = rng.randint(2, nch - 2) if which == "FDD_MS" else 0  # FDD_mpe needs two singular values
-        prm = {"path": which, "nch": nch, "fs": fs, "nxseg": nxseg, "N": nxseg * rng.randint(8, 20), "f0": f0,
-               "method_SD": rng.choice(["per", "cor"]), "DF": rng.uniform(1.5, 5.0) * df, "sel": f0 + rng.uniform(-0.4, 0.4) * df,
+        prm = {"path": which, "nch": nch, "fs": fs, "nxseg": nxseg, "N": nxseg * rng.randint(8, 20), "tones": [f0, f1],
+               "method_SD": rng.choice(["per", "cor"]), "DF": DF, "sel": sels, "gain": 10.0 ** rng.uniform(-8, 8) if rng.random() < 0.7 else 1.0,
+               "again": rng.random() < 0.5,
                "nref": nref, "cut": rng.randint(1, nch - nref - 1) if which == "FDD_MS" else 0, "data_seed": rng.getrandbits(40)}
         _class_case(ctx, prm)
         ctx.count(f"oracle_class_{which}_{prm['method_SD']}")
+        ctx.count("oracle_class_sel_descending" if sels[0] > sels[1] else "oracle_class_sel_ascending")
 
 
 def _class_case(ctx, prm):
@@ -406,14 +433,17 @@ def _class_case(ctx, prm):
     from pyoma2.algorithms import EFDD, FDD, FDD_MS, FSDD
     from pyoma2.setup import MultiSetup_PreGER, SingleSetup
 
-    which, nch, fs, nxseg, N, f0, msd, DF, sel = (prm[k] for k in ("path", "nch", "fs", "nxseg", "N", "f0", "method_SD", "DF", "sel"))
+    which, nch, fs, nxseg, N, tones, msd, DF, sels = (prm[k] for k in ("path", "nch", "fs", "nxseg", "N", "tones", "method_SD", "DF", "sel"))
     g = np.random.default_rng(prm["data_seed"])
     t = np.arange(N) / fs
-    A = g.uniform(0.5, 2.0, nch)
-    th = g.uniform(0, 2 * np.pi, nch)
-    # narrow-band response with complex channel amplitudes A e^{i th}, plus a full-rank broadband floor
-    data = np.stack([A[c] * np.cos(2 * np.pi * f0 * t + th[c]) for c in range(nch)], 1) + 0.02 * g.standard_normal((N, nch))
-    amp = A * np.exp(1j * th)
+    amps = []
+    data = 0.02 * g.standard_normal((N, nch))  # full-rank broadband floor
+    for f in tones:  # narrow-band responses with complex channel amplitudes A e^{i th}
+        A = g.uniform(0.5, 2.0, nch)
+        th = g.uniform(0, 2 * np.pi, nch)
+        data = data + np.stack([A[c] * np.cos(2 * np.pi * f * t + th[c]) for c in range(nch)], 1)
+        amps.append(A * np.exp(1j * th))
+    data = data * prm["gain"]
     df = fs / nxseg
     inp = dict(prm)
     first = []
@@ -424,53 +454,62 @@ def _class_case(ctx, prm):
         first.append(out)
         return out
 
-    try:
-        if which == "FDD_MS":
-            nref, cut = prm["nref"], prm["cut"]
-            mov = list(range(nref, nch))
-            groups = [mov[:cut], mov[cut:]]
-            datasets = [data[:, list(range(nref)) + gidx].copy() for gidx in groups]
-            order = list(range(nref)) + groups[0] + groups[1]
-            ms = MultiSetup_PreGER(fs, [list(range(nref))] * 2, datasets)
-            alg = FDD_MS(name="a", nxseg=nxseg, method_SD=msd)
-            ms.add_algorithms(alg)
-            ms.run_by_name("a")
-            ms.mpe("a", sel_freq=[sel], DF=DF)
-            amp_eff = amp[order]
-        else:
-            ss = SingleSetup(data.copy(), fs)
-            cls = {"FDD": FDD, "EFDD": EFDD, "FSDD": FSDD}[which]
-            alg = cls(name="a", nxseg=nxseg, method_SD=msd)
-            ss.add_algorithms(alg)
-            ss.run_by_name("a")
-            if which == "FDD":
-                ss.mpe("a", sel_freq=[sel], DF=DF)
-            else:
-                fdd.FDD_mpe = spy
-                try:
-                    ss.mpe("a", sel_freq=[sel], DF1=DF, DF2=max(DF, 1.0), npmax=4)
-                except (IndexError, ValueError):
-                    pass  # second stage (C07's business); the first stage was recorded
-            amp_eff = amp
-    finally:
-        fdd.FDD_mpe = real_mpe
+    order = list(range(nch))
+    if which == "FDD_MS":
+        nref, cut = prm["nref"], prm["cut"]
+        mov = list(range(nref, nch))
+        groups = [mov[:cut], mov[cut:]]
+        datasets = [data[:, list(range(nref)) + gidx].copy() for gidx in groups]
+        order = list(range(nref)) + groups[0] + groups[1]
+        setup = MultiSetup_PreGER(fs, [list(range(nref))] * 2, datasets)
+        alg = FDD_MS(name="a", nxseg=nxseg, method_SD=msd)
+    else:
+        setup = SingleSetup(data.copy(), fs)
+        alg = {"FDD": FDD, "EFDD": EFDD, "FSDD": FSDD}[which](name="a", nxseg=nxseg, method_SD=msd)
+    setup.add_algorithms(alg)
+    setup.run_by_name("a")
     r = alg.result
     if r is None:
         ctx.skipped += 1
         return
     _judge_faithful(ctx, which, r.Sy, r.S_val, r.S_vec, inp)
-    if which in ("EFDD", "FSDD"):
-        if not first:
-            ctx.violation("first-stage-missing", f"{which}.mpe did not call FDD_mpe", inp)
+    calls = [list(sels)] + ([list(reversed(sels))] if prm.get("again") else [])
+    for ncall, sel_list in enumerate(calls):
+        given = list(sel_list)
+        first.clear()
+        if which in ("FDD", "FDD_MS"):
+            setup.mpe("a", sel_freq=sel_list, DF=DF)
+        else:
+            fdd.FDD_mpe = spy
+            try:
+                setup.mpe("a", sel_freq=sel_list, DF1=DF, DF2=max(DF, 1.0), npmax=4)
+            except (IndexError, ValueError):
+                pass  # second stage (C07's business); the first stage was recorded
+            finally:
+                fdd.FDD_mpe = real_mpe
+        if sel_list != given:
+            ctx.violation("caller-input-modified", f"{which}.mpe modified the caller's sel_freq list", inp)
+        r = alg.result
+        if which in ("EFDD", "FSDD"):
+            if not first:
+                ctx.violation("first-stage-missing", f"{which}.mpe did not call FDD_mpe", inp)
+                return
+            Fn1, Phi1 = first[-1]
+            if r.Phi is not None and np.asarray(r.Phi).shape == Phi1.shape and not np.array_equal(np.asarray(r.Phi), Phi1):
+                ctx.violation("efdd-shape-not-first-stage", f"{which}: stored Phi differs from the first-stage shape", inp)
+            Fns, Phis = Fn1, Phi1
+        else:
+            Fns, Phis = np.asarray(r.Fn), np.asarray(r.Phi)
+        if len(Fns) != len(given) or Phis.shape[1] != len(given):
+            ctx.violation("mode-count", f"{which}: {len(given)} selected frequencies, {len(Fns)} results", inp)
             return
-        Fn1, Phi1 = first[0]
-        if r.Phi is not None and not np.array_equal(np.asarray(r.Phi), Phi1):
-            ctx.violation("efdd-shape-not-first-stage", f"{which}: stored Phi differs from the first-stage shape", inp)
-        Fn, Phi = Fn1[0], Phi1[:, 0]
-    else:
-        Fn, Phi = r.Fn[0], r.Phi[:, 0]
-    # the narrow-band amplitudes only bind when the tone's line is the one picked
-    _judge_pick(ctx, which, r.Sy, r.freq, sel, DF, Fn, Phi, inp, amp=amp_eff if abs(Fn - f0) <= df else None, amp_tol=0.01)
+        # the i-th result belongs to the i-th selected frequency, in the order given by the caller
+        for i, sel in enumerate(given):
+            f_true = min(tones, key=lambda f: abs(f - sel))
+            amp = amps[tones.index(f_true)][order]
+            # the narrow-band amplitudes only bind when the tone's line is the one picked
+            _judge_pick(ctx, f"{which}[call {ncall}, sel {i}]" if (ncall or i) else which, r.Sy, r.freq, sel, DF, Fns[i], Phis[:, i],
+                        inp, amp=amp if abs(Fns[i] - f_true) <= df else None, amp_tol=AMP_TOL[msd])
 
 
 class _ReplayCtx:
